@@ -39,14 +39,17 @@ Atoms(f) ==
       [] f = "into_struct"   -> {"bare", "owned", "ref", "ref_mut", "owned_ref", "ref_refmut", "all3", "all3_comma", "ty_a", "ty_b", "ty_ab", "unknown_form",
                                  "legacy_types", "mixed_forms"}
       [] f = "into_field"    -> {"skip", "ignore"}
-      [] f = "legacy_field"  -> {"sel", "ignore", "forward", "unknown", "eq_value", "name_value", "lit_param"}
-      [] f = "legacy_forms"  -> {"owned", "ref", "ref_mut", "owned_ref", "all3", "unknown", "list_param", "name_value"}
+      [] f = "legacy_field"  -> {"sel", "ignore", "forward", "unknown", "eq_value", "name_value", "lit_param", "not_foreign", "not_unneg"}
+      [] f = "legacy_forms"  -> {"owned", "ref", "ref_mut", "owned_ref", "all3", "unknown", "list_param", "name_value", "not_foreign", "not_unneg"}
       [] f = "error_field"   -> {"source", "not_source", "backtrace", "ignore", "source_backtrace", "unknown", "nested_not", "not_unknown",
-                                 "list_param"}
+                                 "list_param", "not_foreign", "not_unneg"}
 
 Corrupt(f, a) == a \in {"legacy_fmt", "legacy_bound", "unknown", "legacy_types", "rename_bad", "unknown_form", "eq_value",
                          \* malformed parameter shapes of the State-based derives and of Into
                          "mixed_forms", "name_value", "lit_param", "list_param", "nested_not", "not_unknown",
+                         \* `not(...)` around a flag of ANOTHER derive (`#[error(not(forward))]`, `#[deref(not(source))]`), or around a
+                         \* parameter of this derive that has no negation (`not(ignore)`, `not(owned)`)
+                         "not_foreign", "not_unneg",
                          \* a bare `#[from]` chooses among VARIANTS: on a struct it means nothing and is rejected
                          \* (`#[from(skip)]` on a struct is a type list naming a type called `skip`: C08's subject)
                          "variant_only_from"}
